@@ -155,7 +155,15 @@ def canon_exc(e: BaseException):
     if cls == "MissingDependenciesError":
         return {"err": [cls, parse_missing(str(e))]}
     if cls == "KeyError":
-        return {"err": [cls, str(e.args[0]) if e.args else ""]}
+        msg = str(e.args[0]) if e.args else ""
+        # pandas `.loc[names]`: "['a'] not in index" / "None of [Index(['a'], dtype=…)] are in the [index|columns]"
+        mm = re.match(r"^\[(.*)\] not in index$", msg) or re.match(r"^None of \[Index\(\[(.*?)\]", msg)
+        if mm:
+            try:
+                msg = str(ast.literal_eval("[" + mm.group(1) + "]")[0])
+            except Exception:  # noqa: BLE001
+                pass
+        return {"err": [cls, msg]}
     return {"err": [cls]}
 
 
@@ -453,6 +461,13 @@ class Spec:
         iv = self.init_values()
         return [[k, rat_str(iv[k])] for k in self.vars]
 
+    def check_fluxes(self, env):
+        """every entry point that looks the fluxes up reads them from the dict `_get_args` returned: a stoichiometry key
+        that is a data-set name, or no output at all, is a KeyError"""
+        for f in self.flux_names():
+            if f in self.data or f not in env:
+                raise SpecKeyError(f)
+
     def at(self, state, t):
         """value of every name at (state, t); parameters defined by initial assignment keep
         their time-zero value"""
@@ -486,6 +501,7 @@ class Spec:
 
     def rhs(self, state, t):
         env = self.at(state, t)
+        self.check_fluxes(env)
         d = {k: Fraction(0) for k in self.vars}
         def g(v):
             if not fexpr.is_dyadic_small(v):
@@ -503,6 +519,7 @@ class Spec:
 
     def stoich(self, state, t):
         env = self.at(state, t)
+        self.check_fluxes(env)
         d = {}
         for r, rx in self.rxns.items():
             for cpd, cj in rx["st"]:
@@ -515,6 +532,7 @@ class Spec:
 
     def stoich_of(self, state, t, x):
         env = self.at(state, t)
+        self.check_fluxes(env)
         out = {}
         for r, rx in self.rxns.items():
             for cpd, cj in rx["st"]:
@@ -602,7 +620,12 @@ class Spec:
 
             for k in self.readouts:
                 vals[k] = ro_val(k)
-        return [[k, rat_str(vals[k])] for k in self.arg_names(fl)]
+        out = []
+        for k in self.arg_names(fl):
+            if k not in vals:
+                raise SpecKeyError(k)
+            out.append([k, rat_str(vals[k])])
+        return out
 
     def answer_tc(self, rows):
         out = {}
@@ -615,10 +638,12 @@ class Spec:
 
         def p_args(t, st):
             env = self.at(st, t)
+            self.check_fluxes(env)
             return sorted([k, rat_str(v)] for k, v in env.items() if k != "time" and k not in self.data)
 
         def p_fluxes(t, st):
             env = self.at(st, t)
+            self.check_fluxes(env)
             return sorted([k, rat_str(env[k])] for k in self.flux_names())
 
         def p_rhs(t, st):
@@ -665,11 +690,13 @@ class Spec:
             state = None if q[1] is None else dict(q[1])
             if kind == "args":
                 env = self.at(state, q[2])
+                self.check_fluxes(env)
                 return {"ok": sorted([k, rat_str(v)] for k, v in env.items() if k not in self.data)}
             if kind == "argsf":
                 return {"ok": self.args_sel(state, q[2], q[3])}
             if kind == "fluxes":
                 env = self.at(state, q[2])
+                self.check_fluxes(env)
                 return {"ok": [[k, rat_str(env[k])] for k in self.flux_names()]}
             if kind == "rhs":
                 d = self.rhs(state, q[2])
@@ -692,7 +719,7 @@ class Spec:
 
 
 def gen_content(rng, *, n_vars=(1, 5), n_pars=(0, 4), n_comps=(1, 8), p_ia=0.3, p_sur=0.25,
-                p_time=0.2, shuffle=True, small=(1, 2, 3), p_data=0.0, p_readouts=0.0):
+                p_time=0.2, shuffle=True, small=(1, 2, 3), p_data=0.0, p_readouts=0.0, p_badflux=0.0):
     """Random well-formed content, acyclic and complete by construction, declaration
     order shuffled afterwards."""
     nv = rng.randint(*n_vars)
@@ -784,6 +811,15 @@ def gen_content(rng, *, n_vars=(1, 5), n_pars=(0, 4), n_comps=(1, 8), p_ia=0.3, 
             k = next(ia_iter)
             vars_.append([k, {"ia": mkfn(1)}])
             pool.append(k)
+    if surs and rng.random() < p_badflux:
+        # a surrogate stoichiometry KEY that is not bound in the dict `_get_args` returns: a data-set name or no
+        # output at all (add_surrogate does not check the keys) — every flux lookup is then a KeyError
+        _, su = rng.choice(surs)
+        bad = rng.choice([d[0] for d in data] + ["ghost"])
+        if su["st"]:
+            su["st"][rng.randrange(len(su["st"]))][0] = bad
+        else:
+            su["st"].append([bad, [[all_var_names[0], {"c": "1"}]]])
     readouts = []
     if rng.random() < p_readouts:
         # readouts name anything the argument table holds, data sets, and readouts declared BEFORE them
